@@ -83,6 +83,14 @@ def judge(events, outs):
                 V.append(_v("C02", f"C02/{fl}/{op}/alters-data:{'+'.join(out['data_changed'])}", ev))
             if out.get("aborted_op") or cls == "aborted":
                 continue
+            if out.get("refused_keep") and out.get("gate0") is not None and fam != "caltrack":
+                g0, g1 = out["gate0"], out["gate_after"]
+                changed = [k for k in ("dq", "tz") if (sorted(g0[k]) if k == "dq" else g0[k]) != (sorted(g1[k]) if k == "dq" else g1[k])]
+                if out.get("still_fitted") is False:
+                    changed.append("fitted")
+                if changed:
+                    V.append(_v("C04", f"C04/{fl}/fit/refused/alters-gate-state:{'+'.join(changed)}", ev,
+                                {"was": g0, "now": g1, "raised": cls}))
             arg_error = f.get("wrong_type") or (f.get("needs_ghi") and not f.get("has_ghi"))
             dq = bool(f.get("data_dq")) and fam != "caltrack"
             refit = "@refit-same-object" if f.get("reused") else ""
@@ -227,6 +235,26 @@ def judge(events, outs):
             for b in out.get("data_altered") or []:
                 V.append(_v("C02", f"C02/{fl}/fit-aborted/alters-data:{'+'.join(b['attrs'])}", ev,
                             {"abort_at_entry": b["k"], "where": b["where"], "of": out["entries"]}))
+
+        elif kind == "SERIAL_ABORT_SWEEP":
+            if cls != "done":
+                continue
+            fl = flabel(out["fam"], out["profile"])
+            seen = set()
+            for b in out.get("store_altered") or []:
+                sg = f"C02/{fl}/store-aborted/alters-model:{'+'.join(b['paths']) or 'state'}"
+                if sg not in seen:
+                    seen.add(sg)
+                    V.append(_v("C02", sg, ev, {"abort_at_entry": b["k"], "where": b["where"], "of": out["store_entries"]}))
+            for b in out.get("doc_altered") or []:
+                sg = f"C01/{fl}/load-aborted/alters-document:{'+'.join(b['paths']) or 'document'}"
+                if sg not in seen:
+                    seen.add(sg)
+                    V.append(_v("C01", sg, ev, {"abort_at_entry": b["k"], "where": b["where"], "of": out["load_entries"]}))
+            if out.get("later_load"):
+                b = out["later_load"][0]
+                V.append(_v("C01", f"C01/{fl}/load-aborted/later-load-differs", ev,
+                            {"abort_at_entry": b["k"], "where": b["where"], "of": out["load_entries"], "got": b["got"]}))
 
         elif kind == "PREDICT_PAIR":
             if cls != "done" or not out.get("covers"):
